@@ -28,15 +28,15 @@ ASSUMPTIONS = ["h5py returns the bytes it was given (checked: file contents are 
 def machine_scenario(ctx, i):
     r = ctx.rng
     C, D = int(r.integers(1, 4)), int(r.integers(1, 4))
-    tiny = i % 5 == 4
+    tiny = bool(r.random() < 0.2)
     scale = 1e-9 if tiny else float(10.0 ** r.choice([-1, 0, 1]))
     w, m, v, _ = gen.gmm_params(r, C, D, scales=np.ones(D) * scale)
-    kind = ["scalar", "row", "full"][i % 3]
+    kind = ["scalar", "row", "full"][int(r.integers(0, 3))]
     base = (scale**2) * 10 ** r.uniform(-3, 0)
     thr = float(base) if kind == "scalar" else base * r.uniform(0.5, 2, D) if kind == "row" else base * r.uniform(0.5, 2, (C, D))
-    return dict(C=C, D=D, w=w, m=m, v=v, thr_kind=kind, thr=thr, trainer=["ml", "map"][i % 2], um=bool(r.integers(0, 2)), uv=bool(r.integers(0, 2)),
-                uw=bool(r.integers(0, 2)), steps=None if i % 4 == 1 else int(r.integers(0, 300)), conv=None if i % 4 == 2 else float(10 ** r.uniform(-8, -1)),
-                trips=1 + i % 3, offer_ubm=(i % 7 != 3))
+    return dict(C=C, D=D, w=w, m=m, v=v, thr_kind=kind, thr=thr, trainer=["ml", "map"][int(r.integers(0, 2))], um=bool(r.integers(0, 2)), uv=bool(r.integers(0, 2)),
+                uw=bool(r.integers(0, 2)), **dict(zip(("steps", "conv"), [(None, float(10 ** r.uniform(-8, -1))), (int(r.integers(0, 300)), None), (int(r.integers(0, 300)), float(10 ** r.uniform(-8, -1)))][int(r.integers(0, 3))])),
+                trips=1 + int(r.integers(0, 3)), offer_ubm=bool(r.random() < 0.85))
 
 
 def build(sc):
